@@ -364,12 +364,16 @@ func runC05(tr *Trace, sc *Script, rec *Recorder, scratch string) *Violation {
 			if r.Bool(30) {
 				m = replyDeadline // request timeout: also a transient RPC failure
 			}
+			if r.Bool(20) {
+				m = replyOtherFork // the header of a block with watched logs comes from an RPC node on another fork
+			}
 			return Op{K: "rel", S: labels[r.Intn(len(labels))], A: []int64{m}}, true
 		default:
 			return Op{K: "procfail", A: []int64{int64(1 + r.Intn(2))}}, true
 		}
 	}
 
+	otherForkStreak := 0
 	apply := func(op Op) {
 		steps++
 		rec.Stats.Inc("steps")
@@ -404,6 +408,29 @@ func runC05(tr *Trace, sc *Script, rec *Recorder, scratch string) *Violation {
 			}
 			if mode == replyDeadline && p.method != "HeaderByNumber" && p.method != "FilterLogs" {
 				mode = replyTransient
+			}
+			if mode == replyOtherFork {
+				// only where the downloader cross-checks (the header of a block it has watched logs of), and never
+				// so often in a row that its bounded retry gives up (a persistently inconsistent RPC is not a fault
+				// a node can be expected to survive)
+				ok := false
+				if p.label == "dl" && p.method == "HeaderByNumber" && p.desc[0] >= '0' && p.desc[0] <= '9' && otherForkStreak < 2 {
+					var n uint64
+					fmt.Sscan(p.desc, &n)
+					if n < uint64(len(chain.Canon)) && len(watchedLogs(chain.Canon[n])) > 0 {
+						ok = true
+					}
+				}
+				if !ok {
+					mode = replyTransient
+				}
+			}
+			if p.label == "dl" && p.method == "HeaderByNumber" {
+				if mode == replyOtherFork {
+					otherForkStreak++
+				} else {
+					otherForkStreak = 0
+				}
 			}
 			if mode != replyOK {
 				rec.Stats.Inc(fmt.Sprintf("rpc_fault_%d_%s", mode, p.method))
